@@ -26,4 +26,4 @@ if __name__ == "__main__":
     for k, v in sorted(groups.items(), key=lambda kv: -len(kv[1])):
         print(len(v), k)
         for case, detail in v[:int(sys.argv[3]) if len(sys.argv) > 3 else 1]:
-            print("     ", json.dumps(case, default=engine._jdefault)[:400]); print("     ", detail[:300])
+            print("     ", json.dumps(case, default=engine._jdefault)[:260]); print("     ", detail[:260])
